@@ -8,6 +8,7 @@ import genb
 from vlib import xhex, rnd_u64, U64
 
 THEOREMS = ["C19_faults_rejected", "C19_fault_tree_is_rfc", "C19_baseline_accepted", "C19_classes_inhabited"]
+RELEASE = True          # debug and release builds of the harness (debug_assert!, overflow checks, cfg(debug_assertions))
 RULE = ("DEC x<bytes>: for every generated bundle of the C01 domain (CRC types 0/1/2 per block, dtn / dtn:none / ipn EIDs, fragments, "
         "0-6 extension blocks of the known types 6/7/10 and of unknown types, payload last) EVERY applicable (fault, position) pair of "
         "Spec/Faults.v, injected on the item tree of the Python reference encoder: DropItem / ExtraItem (primary, canonical, timestamp, "
